@@ -330,7 +330,7 @@ def fmt(t, depth=6):
     if k == "const":
         return repr(t[2])
     if k == "call":
-        return "%s(%s)" % (t[1].split("<")[0].rsplit("::", 2)[-1] if "::" in t[1] else t[1], ", ".join(fmt(a, d) for a in t[2]))
+        return "%s(%s)" % (callee_name(t), ", ".join(fmt(a, d) for a in t[2]))
     if k == "ref":
         return "&" + fmt(t[1], d)
     if k == "deref":
